@@ -228,12 +228,21 @@ pub fn progress(what: impl FnOnce() -> String) {
 /// code under test when one case was stuck for minutes, a tool error when the run was merely slow.
 pub fn watchdog(secs: u64) {
     LAST_PROGRESS.store(now_secs(), AtomicOrdering::Relaxed);
+    let cap: usize = std::env::var("VERIF_MEMCAP_MB").ok().and_then(|s| s.parse::<usize>().ok()).unwrap_or(8192) << 20;
     std::thread::spawn(move || {
-        std::thread::sleep(std::time::Duration::from_secs(secs));
+        let start = std::time::Instant::now();
+        // also a memory guard: a case under which the live heap of the driver passes the cap (8 GiB; the largest legitimate
+        // case stays below 1 GiB) is reported like a hang, with the case in flight, before the machine runs out of memory
+        let mut runaway = 0usize;
+        while start.elapsed().as_secs() < secs {
+            std::thread::sleep(std::time::Duration::from_millis(200));
+            let live = crate::total::CURRENT.load(AtomicOrdering::Relaxed);
+            if live > cap { runaway = live; break; }
+        }
         let stuck = now_secs().saturating_sub(LAST_PROGRESS.load(AtomicOrdering::Relaxed));
         let cur = CURRENT_CASE.lock().map(|c| c.clone()).unwrap_or_default();
-        if let Ok(path) = std::env::var("VERIF_PROGRESS") { let _ = std::fs::write(path, serde_json::json!({"stuck_for": stuck, "current": cur, "watchdog_secs": secs}).to_string()); }
-        eprintln!("WATCHDOG: driver exceeded {secs}s of wall-clock time (stuck for {stuck}s on {cur})");
+        if let Ok(path) = std::env::var("VERIF_PROGRESS") { let _ = std::fs::write(path, serde_json::json!({"stuck_for": stuck, "current": cur, "watchdog_secs": secs, "memory_runaway": runaway}).to_string()); }
+        if runaway > 0 { eprintln!("WATCHDOG: live heap {runaway} bytes while on {cur}"); } else { eprintln!("WATCHDOG: driver exceeded {secs}s of wall-clock time (stuck for {stuck}s on {cur})"); }
         std::process::exit(3);
     });
 }
